@@ -236,7 +236,8 @@ Proof.
 Qed.
 Lemma range_p_le s bs r : range_p s = Some (bs, r) -> range_le K1 bs.
 Proof.
-  unfold range_p. pose proof (hyphen_p_le (space0 s)) as W. destruct (hyphen_p (space0 s)) as [[b r0]|]; [|apply simples_p_le].
+  unfold range_p. destruct (at_empty_alt (space0 s)); [intros [= <- _]; constructor; [split; cbn; [unfold vle_k, K1, MAX_SAFE_INTEGER; cbn; lia|exact I]|constructor]|].
+  pose proof (hyphen_p_le (space0 s)) as W. destruct (hyphen_p (space0 s)) as [[b r0]|]; [|apply simples_p_le].
   destruct (at_alt_end r0); [|apply simples_p_le]. intros [= <- _]. cbn in W. now apply opt_list_le.
 Qed.
 Lemma ranges_tail_le f : forall s l r, ranges_tail f s = Some (l, r) -> range_le K1 l.
